@@ -13,25 +13,25 @@ open Duck.Spec
 /-- the label table built before execution maps a label to the last line carrying it -/
 theorem C03_label_table (is : List Instruction) (l : Str) (k : Nat) :
     lookupLabel (labelTable is) l = some k ↔ IsLabelLine is l k := by
-  sorry
+  exact lookup_labelTable_some is l k
 
 theorem C03_label_table_none (is : List Instruction) (l : Str) :
     lookupLabel (labelTable is) l = none ↔ NoLabelLine is l := by
-  sorry
+  exact lookup_labelTable_none is l
 
 /-- every terminating run of the model runner (never halted) is a run of the abstract machine -/
 theorem C03_sound {σ : Type} (sem : CmdSem σ) (is : List Instruction) (fuel : Nat)
     (rs rs' : RunState σ) (e : RunEnd) (f : Final σ)
     (h : runLoop sem is (labelTable is) noHalt fuel rs = (rs', e)) (hf : finalOf rs' e = some f) :
     Reaches sem is ⟨rs.line, rs.vars, rs.st⟩ f := by
-  sorry
+  exact runLoop_sound sem is fuel rs rs' e f h hf
 
 /-- every run of the abstract machine is computed by the model runner given enough fuel -/
 theorem C03_complete {σ : Type} (sem : CmdSem σ) (is : List Instruction) (c : Cfg σ) (f : Final σ)
     (h : Reaches sem is c f) (polls : Nat) :
     ∃ fuel rs' e, runLoop sem is (labelTable is) noHalt fuel ⟨c.pc, polls, c.vars, c.st⟩ = (rs', e) ∧
       finalOf rs' e = some f := by
-  sorry
+  exact runLoop_complete sem is c f h ⟨c.pc, polls, c.vars, c.st⟩ rfl
 
 /-- the abstract machine is deterministic: a program has at most one outcome -/
 theorem C03_deterministic {σ : Type} (sem : CmdSem σ) (is : List Instruction) (c : Cfg σ)
@@ -40,7 +40,11 @@ theorem C03_deterministic {σ : Type} (sem : CmdSem σ) (is : List Instruction) 
      | .ok v₁ _, .ok v₂ _ => v₁ = v₂
      | .fail m₁ i₁ _, .fail m₂ i₂ _ => m₁ = m₂ ∧ i₁ = i₂
      | _, _ => False) := by
-  sorry
+  have hff := reaches_functional sem is c f₁ f₂ h₁ h₂
+  subst hff
+  cases f₁ with
+  | ok v s => rfl
+  | fail m i s => exact ⟨rfl, rfl⟩
 
 /-- more fuel never changes a finished run (the history of a run is monotone) -/
 theorem C03_fuel_monotone {σ : Type} (sem : CmdSem σ) (is : List Instruction)
@@ -48,6 +52,49 @@ theorem C03_fuel_monotone {σ : Type} (sem : CmdSem σ) (is : List Instruction)
     (rs rs' : RunState σ) (e : RunEnd)
     (h : runLoop sem is labels halt fuel rs = (rs', e)) (he : e ≠ .outOfFuel) :
     runLoop sem is labels halt (fuel + extra) rs = (rs', e) := by
-  sorry
+  exact runLoop_fuel_mono sem is labels halt fuel extra rs rs' e h he
+
+/-! ### non-vacuity: a concrete program with a duplicated label -/
+
+namespace C03Example
+
+/-- `:a jump` / `:a x = boom` / `:b quit` — label `a` is carried by lines 0 and 1 -/
+def prog : List Instruction :=
+  [ ⟨{}, .script { label := some "a".toList, command := some "jump".toList }⟩,
+    ⟨{}, .script { label := some "a".toList, output := some "x".toList,
+                   command := some "boom".toList }⟩,
+    ⟨{}, .script { label := some "b".toList, command := some "quit".toList }⟩ ]
+
+/-- `jump` goes to label `b`, `boom` raises an error, `quit` exits; no `on_error` command -/
+def sem : CmdSem Unit := fun name _ _ _ vars s =>
+  if name = "jump".toList then some (.goTo none (.label "b".toList), vars, s)
+  else if name = "boom".toList then some (.error "bang".toList, vars, s)
+  else if name = "quit".toList then some (.exit none, vars, s)
+  else none
+
+/-- the duplicated label resolves to its last line -/
+example : IsLabelLine prog "a".toList 1 := (C03_label_table prog _ 1).1 (by decide)
+
+example : ¬ IsLabelLine prog "a".toList 0 := fun h => by
+  have := (C03_label_table prog _ 0).2 h
+  revert this; decide
+
+example : NoLabelLine prog "c".toList := (C03_label_table_none prog _).1 (by decide)
+
+/-- from line 0 the abstract machine jumps to `b` and exits successfully -/
+example : Reaches sem prog ⟨0, [], ()⟩ (.ok [] ()) :=
+  C03_sound sem prog 5 ⟨0, 0, [], ()⟩ ⟨2, 2, [], ()⟩ .exitCalled _ (by rfl) rfl
+
+/-- from line 1 the error is not handled: `x` becomes "false", then the script exits -/
+example : Reaches sem prog ⟨1, [], ()⟩ (.ok [("x".toList, "false".toList)] ()) :=
+  C03_sound sem prog 5 ⟨1, 0, [], ()⟩ ⟨2, 2, [("x".toList, "false".toList)], ()⟩ .exitCalled _
+    (by rfl) rfl
+
+/-- a failing run: `jump` to a label nobody carries -/
+example : Reaches (fun _ _ _ _ vars s => some (.goTo none (.label "zz".toList), vars, s)) prog
+    ⟨0, [], ()⟩ (.fail ("Label: ".toList ++ "zz".toList ++ " not found.".toList) {} ()) :=
+  C03_sound _ prog 1 ⟨0, 0, [], ()⟩ ⟨0, 1, [], ()⟩ (.fail _ {}) _ (by rfl) rfl
+
+end C03Example
 
 end Duck
